@@ -225,16 +225,32 @@ class Frames(Part):
 class Lines(Part):
     name = "rule-bar"
     rule = ("Rule(title incl. wide, characters incl. wide and multi-character, align) -> one line of exactly W cells; Bar(size, begin, end, width) -> exactly "
-            "min(width or W, W); ProgressBar(total incl. 0, completed, width, pulse) -> <= that, == when colour is available; W 1..200 x colour system x "
-            "no_color x env; non-trivial = wide rule characters, a title longer than W, or a bar narrower than W")
+            "min(width or W, W); ProgressBar(total incl. 0 and fractional, completed below / at / beyond total, negative or fractional, width, pulse) -> <= that, == when "
+            "colour is available; a ProgressBar is followed by a history of 0-5 edits - update(completed), update(completed, total) with totals going up and down, "
+            "or the public attributes width / pulse re-assigned - and is rendered and judged (against the width it has at that moment) after construction and "
+            "after every edit; W 1..200 x colour system x no_color x env; non-trivial = wide rule characters, a title longer than W, a bar narrower than W, "
+            "or a history in which update() changed the total")
     budget = {"quick": (8, 1000), "thorough": (16, 8000)}
 
     def strategy(self, tier):
         rule = st.builds(lambda t, ch, al: {"k": "rule", "title": t, "characters": ch, "align": al}, st.one_of(st.just(""), GT.text_content(True), GT.title_content()),
                          st.sampled_from(["─", "-", "=-", GC.WIDE[0], "━", "ab" + GC.WIDE[1], "*", "━━", "═─", "＝", "─" * 3]), st.sampled_from(["left", "center", "right"]))
         bar = st.builds(lambda size, b, e, w: {"k": "bar", "size": size, "begin": min(b, e), "end": max(b, e), "width": w}, st.integers(1, 100), st.integers(0, 100), st.integers(0, 100), st.one_of(st.none(), st.integers(1, 80)))
-        pbar = st.builds(lambda total, c, w, p, at: {"k": "pbar", "total": total, "completed": c, "width": w, "pulse": p, "atime": at}, st.one_of(st.integers(0, 100), st.just(0)), st.integers(0, 120), st.one_of(st.none(), st.integers(1, 80)), st.booleans(),
-                         st.one_of(st.just(1.5), st.integers(0, 200).map(lambda k: k / 16), st.floats(0, 1000, allow_nan=False)))
+        # totals: 0 (documented: a full bar) or >= 0.5; completed: below / at / beyond the total, negative, fractional
+        total = st.one_of(st.integers(0, 100), st.just(0), st.integers(1, 300), st.floats(0.5, 300, allow_nan=False))
+        completed = st.one_of(st.integers(0, 120), st.integers(-5, 400), st.floats(-5, 400, allow_nan=False))
+        bwidth = st.one_of(st.none(), st.integers(1, 80))
+        # what a program does with a bar it keeps: progress is reported, the size estimate is revised (up or down), the bar is resized or switched to / from pulsing
+        step = st.one_of(
+            completed.map(lambda c: ["update", c, None]),
+            st.builds(lambda c, t: ["update", c, t], completed, total),
+            st.builds(lambda c, t: ["update", c, t], completed, total),
+            bwidth.map(lambda w: ["width", w]),
+            st.booleans().map(lambda p: ["pulse", p]),
+        )
+        history = st.one_of(st.just([]), st.lists(step, min_size=1, max_size=5))
+        pbar = st.builds(lambda total, c, w, p, at, h: {"k": "pbar", "total": total, "completed": c, "width": w, "pulse": p, "atime": at, "history": h}, total, completed, bwidth, st.booleans(),
+                         st.one_of(st.just(1.5), st.integers(0, 200).map(lambda k: k / 16), st.floats(0, 1000, allow_nan=False)), history)
         w = st.one_of(st.integers(1, 12), st.integers(1, 200))
         return st.builds(lambda n, w, cs, nc, env: {"node": n, "W": w, "color_system": cs, "no_color": nc, "env": env}, st.one_of(rule, rule, bar, pbar), w,
                          st.sampled_from([None, "standard", "256", "truecolor"]), st.sampled_from([False, False, True]), st.sampled_from(["utf8", "utf8", "ascii", "legacy"]))
@@ -243,11 +259,53 @@ class Lines(Part):
         n = spec["node"]
         W = spec["W"]
         con = make_console(W, spec["env"], spec["color_system"], spec["no_color"])
-        lines = render_text_lines(con, sut(GT.build, n))
+        obj = sut(GT.build, n)
+        lines = render_text_lines(con, obj)
         desc = "%r at W=%d colour=%r no_color=%r env=%s -> %r" % (n, W, spec["color_system"], spec["no_color"], spec["env"], lines)
         k = n["k"]
-        if k == "pbar" and not lines:
-            lines = [""]
+        if k == "pbar":
+            # the bar as constructed, then after every edit of its history: each render is judged against the width the bar has at that moment
+            colour = spec["color_system"] is not None and not spec["no_color"]
+            bw = n["width"]
+            total_changed = False
+            for i, step in enumerate([None] + list(n.get("history") or [])):
+                if step is not None:
+                    if step[0] == "update":
+                        if step[2] is None:
+                            sut(obj.update, step[1])
+                        else:
+                            sut(obj.update, step[1], step[2])
+                            total_changed = True
+                    elif step[0] == "width":
+                        bw = step[1]
+                        sut(setattr, obj, "width", bw)
+                    else:
+                        sut(setattr, obj, "pulse", step[1])
+                    lines = render_text_lines(con, obj)
+                    desc = "%r at W=%d colour=%r no_color=%r env=%s, after edit %d %r -> %r" % (n, W, spec["color_system"], spec["no_color"], spec["env"], i, step, lines)
+                when = "" if step is None else "/after-edits"
+                if not lines:
+                    lines = [""]
+                if len(lines) != 1:
+                    ctx.violation("one-line", "C08/lines/pbar" + when, "expected one line; " + desc)
+                    return
+                w = OC.width(lines[0])
+                target = min(bw or W, W)
+                if w > target:
+                    ctx.violation("bar", "C08/bar/too-wide" + when, "pbar is %d cells wide, at most %d allowed; %s" % (w, target, desc))
+                    return
+                if colour and w != target:
+                    ctx.violation("bar", "C08/bar/not-filled" + when, "pbar is %d cells wide, should fill %d; %s" % (w, target, desc))
+                    return
+                if target < W:
+                    ctx.nontrivial = True
+            if total_changed:
+                ctx.nontrivial = True
+                ctx.cls("pbar-total-revised")
+            if n.get("history"):
+                ctx.cls("pbar-history")
+            ctx.cls(k)
+            return
         if len(lines) != 1:
             ctx.violation("one-line", "C08/lines/" + k, "expected one line; " + desc)
             return
